@@ -411,11 +411,18 @@ static int dispatch(TcpAsyncCtx *tcpCtx) {
 		/* Verify that the send timeout has not elapsed. */
 		if (tcpCtx->parent->options[KSI_ASYNC_OPT_SND_TIMEOUT] == 0 ||
 			(difftime(curTime, req->reqTime) > tcpCtx->parent->options[KSI_ASYNC_OPT_SND_TIMEOUT])) {
+			bool partial = (req->sentCount > 0);
 			/* Set error. */
 			req->state = KSI_ASYNC_STATE_ERROR;
 			req->err = KSI_NETWORK_SEND_TIMEOUT;
 			/* Just remove the request from the request queue. */
 			KSI_AsyncHandleList_remove(tcpCtx->reqQueue, 0, NULL);
+			if (partial) {
+				/* The stream is cut in the middle of a request: the connection can not be used any more. */
+				closeSocket(tcpCtx, __LINE__);
+				res = KSI_ASYNC_CONNECTION_CLOSED;
+				goto cleanup;
+			}
 			continue;
 		}
 
